@@ -181,6 +181,10 @@ func sanitize(s string) string {
 // FreshVar declares a new free constant.
 func FreshVar(hint string, s *Sort) *Term {
 	hint = sanitize(hint)
+	switch hint {
+	case "mod", "div", "abs", "not", "and", "or", "ite", "select", "store", "let", "forall", "exists", "distinct", "true", "false", "rem", "concat":
+		hint = "v_" + hint
+	}
 	n := varNames[hint]
 	varNames[hint] = n + 1
 	name := hint
